@@ -79,6 +79,7 @@ def alphabet(world):
         ('set_tags', 1, 'A'), ('add_tag', 1, 'B'), ('clear_tags', 1),
         ('materialize_defaults',),
         ('copy_with', 'a', 'CW'), ('assign', 'k0', 'AS'),
+        ('deepcopy_edit_copy', 'a'),
     ]
   else:
     edits = [
@@ -90,6 +91,7 @@ def alphabet(world):
         ('materialize_defaults',),
         ('copy_with', 'x', 'CW'), ('assign', 'y', 'AS'),
         ('assign2', 'x', 'y'),
+        ('deepcopy_edit_copy', 'x'), ('deepcopy_with_edit_copy', 'y'),
         ('update_callable', 'node_b', False),
         ('update_callable', 'only_x', True),
         ('update_callable', 'only_x', False),
@@ -104,6 +106,9 @@ def alphabet(world):
   susp.append(('disable',))
   susp.append(('enable',))
   return edits + susp
+
+
+FRAME = []      # frame-condition failures noticed inside an operation
 
 
 CALLABLES = {'node_b': N.node_b, 'only_x': N.only_x, 'node_kw': N.node_kw}
@@ -145,6 +150,20 @@ def apply_plain(cfg, e):
     materialize.materialize_defaults(cfg)
   elif k == 'copy_with':
     return fdl.copy_with(cfg, **{e[1]: e[2]})
+  elif k in ('deepcopy_edit_copy', 'deepcopy_with_edit_copy'):
+    # the copy is edited; the original's history must not move
+    import copy  # pylint: disable=g-import-not-at-top
+    lens0 = {kk: len(v) for kk, v in cfg.__argument_history__.items()}
+    c2 = (copy.deepcopy(cfg) if k == 'deepcopy_edit_copy'
+          else fdl.deepcopy_with(cfg))
+    setattr(c2, e[1], 'EDIT-ON-COPY')
+    fdl.add_tag(c2, e[1], N.TagC)
+    lens1 = {kk: len(v) for kk, v in cfg.__argument_history__.items()}
+    if lens0 != lens1:
+      FRAME.append(f'{k}: history of the original grew when its deep copy '
+                   f'was edited: {lens0} -> {lens1}')
+    c2_last = c2.__argument_history__[e[1]][-1]
+    del c2_last
   elif k == 'assign':
     fdl.assign(cfg, **{e[1]: e[2]})
   elif k == 'assign2':
@@ -354,6 +373,41 @@ def state_key(cfg, mon):
           tuple(sorted(map(str, mon.tag_dirty))))
 
 
+USER_MODULES = ['config', 'copying', 'daglish', 'history', 'materialize',
+                'mutate_buildable', 'experimental.auto_config']
+
+
+def run_locations(res):
+  """Edits made from user files whose paths end like Fiddle's own internal
+  files (pkg/_src/config.py ...) are still attributed to those user files
+  and functions."""
+  import importlib  # pylint: disable=g-import-not-at-top
+  for mname in USER_MODULES:
+    mod = importlib.import_module('vfx._src.' + mname)
+    want_file = os.path.abspath(mod.__file__)
+    res.states += 1
+    res.nontrivial += 1
+    cfg = mod.construct(N.node)
+    checks = [('construct', cfg, 'x')]
+    for ename, fn in mod.EDITS.items():
+      c = fdl.Config(N.node_pos if ename == 'set_item' else N.node, 'p')
+      out = fn(c)
+      key = 0 if ename == 'set_item' else 'x'
+      checks.append((ename, out if out is not None else c, key))
+    for ename, c, key in checks:
+      res.transitions += 1
+      res.evals += 1
+      e = c.__argument_history__[key][-1]
+      case = {'user_module': mname, 'edit': ename}
+      if (os.path.abspath(e.location.filename) != want_file or
+          e.location.function_name != ename):
+        res.violation(
+            f'C16/edit-attributed-to-wrong-file/user-file-named-like-internal',
+            f'{case}: entry {e.kind.name} {e.new_value!r} attributed to '
+            f'{e.location}, made in {want_file}:{ename}', case)
+      res.outcomes['location:ok'] += 1
+
+
 def reported_view(cfg):
   """What a configuration reports about itself, beyond stored values."""
   try:
@@ -383,7 +437,13 @@ def replay_hist(world, hist, alpha, res, case, check_all=True):
     if len([v for k, v in before[0].items() if isinstance(k, int)]) > 6:
       return cfg, mon, False
     view_before = reported_view(cfg)
+    del FRAME[:]
     cfg, outcome, suspended = apply_op(cfg, op)
+    if FRAME:
+      res.violation(f'C16/edit-of-a-deep-copy-changed-the-original-history/'
+                    f'{op[0]}', f'{case} at op #{n} {op}: {FRAME[0]}', case)
+      ok = False
+      break
     res.transitions += 1
     res.outcomes[f'{op[0]}:{outcome[:5]}'] += 1
 
@@ -465,6 +525,7 @@ def units(tier, seed):
   out.append(('threads', 2, 1, None))
   out.append(('threads', 2, 2, 1))
   out.append(('threads', 3, 1, 1))
+  out.append(('locations',))
   # one thread edits inside suspend_tracking blocks while the other does not
   out.append(('threads', 2, 1, None, 'suspend'))
   out.append(('threads', 2, 2, 1, 'suspend'))
@@ -574,6 +635,9 @@ def run_threads(nthreads, bound, res, cap=None, mode='plain'):
 def run_unit(unit, tier, seed):
   b = bounds(tier)
   res = core.Result()
+  if unit[0] == 'locations':
+    run_locations(res)
+    return res
   if unit[0] == 'threads':
     run_threads(unit[1], unit[2], res, unit[3],
                 unit[4] if len(unit) > 4 else 'plain')
@@ -614,6 +678,11 @@ def replay(case):
   res = core.Result()
   if 'threads' in case:
     run_threads(case['threads'], 2, res, None, case.get('mode', 'plain'))
+    return res
+  if 'user_module' in case:
+    run_locations(res)
+    for v in res.violations:
+      print(v['what'])
     return res
   world = case['world']
   alpha = alphabet(world)
